@@ -237,3 +237,10 @@ MUTANTS.append(dict(name='oer decoder_read_int reads the low octets of a 3-octet
         value += decoder_read_int16(self_p);""", expect='C10.R10'))
 MUTANTS.append(dict(name='oer length determinant long form starts at 129', file='asn1tools/source/c/oer_functions.py',
                     old="    if (length < 128u) {", new="    if (length < 129u) {", expect='C10.R10'))
+MUTANTS.append(dict(name='presence mask buffers of equal size shared between nested SEQUENCEs', file=GEN,
+                    old="""            unique_present_mask = self.add_unique_variable(fmt, 'present_mask')""",
+                    new="""            if not hasattr(self, 'present_masks'):
+                self.present_masks = {}
+            if present_mask_length not in self.present_masks:
+                self.present_masks[present_mask_length] = self.add_unique_variable(fmt, 'present_mask')
+            unique_present_mask = self.present_masks[present_mask_length]""", expect='C10.R11'))
